@@ -75,6 +75,7 @@ AllIface4 == [n \in 1..4 |-> TRUE]
 Mixed3 == [n \in 1..3 |-> n <= 2]
 Mixed4 == [n \in 1..4 |-> n <= 2]
 AllIface5 == [n \in 1..5 |-> TRUE]
+AllIface7 == [n \in 1..7 |-> TRUE]
 Mixed5 == [n \in 1..5 |-> n <= 3]
 Mixed6 == [n \in 1..6 |-> n <= 3]
 Decl4 == [n \in 1..4 |-> FALSE]
